@@ -786,8 +786,8 @@ def e2e_verbatim(ck, rng, projects, modes_full):
                 sig = (mode, frozenset(P.items()), frozenset(G))
                 if pairs and sig not in decided:         # many ranges give the same report: the proved checker sees each once
                     decided.add(sig)
-                    cases.append({"kind": "explicit", "e2e": True, "verbatim": True, "n": len(order), "pairs": pairs, "t": Fraction(t), "mode": mode, "k": k,
-                                  "ord": collect(pairs), "dir": d, "locations": order, "config": cfg})
+                    cases.append({"kind": "explicit", "e2e": True, "verbatim": True, "range": (lo, hi), "n": len(order), "pairs": pairs, "t": Fraction(t),
+                                  "mode": mode, "k": k, "ord": collect(pairs), "dir": d, "locations": order, "config": cfg})
                     impls.append(groups)
                 continue
             if not filt_ok or not ok0:
@@ -1175,6 +1175,8 @@ def main(tier):
         why = py_contract(c["mode"], c["k"], c["t"], case_pairs(c), g)
         if why:
             py_bad[idx] = why
+        elif c.get("range"):
+            pass        # a report with a similarity range: only the property's clauses are decided (the range may drop a whole k-core group)
         elif c["mode"] == "k_core" and {frozenset(x) for x in g} != py_kcore_components(c["k"], c["t"], case_pairs(c)):
             kcore_inexact += 1
             if kcore_inexact <= 3:
